@@ -59,9 +59,10 @@ func splitBatch(op HistOp) ([]HistOp, bool) {
 		return []HistOp{op}, true
 	}
 	if !op.Out.OK() {
-		// rejected as a whole before anything ran (validation) is a plain op;
-		// an error after a partial application cannot be attributed
-		if op.Out.Class == "validation" && batchMalformed(op.Cmd) {
+		// rejected as a whole before anything ran (validation, missing table)
+		// is a plain operation; the deprecated forced failure is a documented
+		// error return after a partial application and cannot be attributed
+		if op.Out.Class == "validation" || op.Out.Class == "not-found" {
 			return []HistOp{op}, true
 		}
 		return nil, false
@@ -125,7 +126,7 @@ func porcupineModel(init *Model) porcupine.Model {
 }
 
 // concScenarios biases the tasks towards collisions on one table and key.
-var concScenarios = []string{"add-race", "put-race", "del-race", "index-read", "create-race", "describe-write", "lifecycle", "toggle", "batch", "mix", "mix"}
+var concScenarios = []string{"add-race", "put-race", "del-race", "index-read", "panic", "create-native", "batch-toggle", "create-race", "describe-write", "lifecycle", "toggle", "batch", "mix", "mix"}
 
 type concGen struct {
 	*Gen
@@ -210,6 +211,42 @@ func (g *concGen) concCmd(m *Model, task, i int) *Cmd {
 	case "put-race":
 		if i == 0 || r.Chance(0.5) {
 			return condPut()
+		}
+	case "panic":
+		// a call that aborts inside the critical section (malformed filter over a
+		// non-empty table): the client must stay usable for every other task
+		if i == 0 || r.Chance(0.3) {
+			return &Cmd{Op: "Bad", Bad: "syntax-filter", Base: "Scan", T: t0, RawExpr: pick(r, []string{"a = ", "( a = :x", "a = :x AND", "a $ :x"}), RawVals: Item{":x": S("a")}}
+		}
+	case "create-native":
+		if len(g.W.Tables) > 1 {
+			t1 := g.W.Tables[1].Name
+			def1 := g.defs[t1][0]
+			switch r.Intn(5) {
+			case 0, 1:
+				d := def1
+				return &Cmd{Op: "Create", T: t1, Def: &d}
+			case 2:
+				return &Cmd{Op: "Native", Native: "activate"}
+			case 3:
+				k := pick(r, g.W.Tables[1].KeysOf(def1)).Clone()
+				return &Cmd{Op: "Update", T: t1, Key: k, Upd: Update{{Kind: "SET", Path: P("b"), Form: "val", Val: g.uniqS(task, i)}}}
+			}
+		}
+	case "batch-toggle":
+		if r.Chance(0.4) {
+			return &Cmd{Op: "Toggle", Fail: pick(r, []string{"internal_server", "internal_server", "none"}), Entry: "emulate"}
+		}
+		if r.Chance(0.7) {
+			c := &Cmd{Op: "BatchWrite"}
+			keys := g.W.Tables[0].KeysOf(def0)
+			perm := r.Intn(len(keys))
+			for j := 0; j < min(4, len(keys)); j++ {
+				it := keys[(perm+j)%len(keys)].Clone()
+				it["a"] = g.uniqS(task, i)
+				c.Batch = append(c.Batch, BatchReq{T: t0, Put: it})
+			}
+			return c
 		}
 	case "del-race":
 		// racing guarded deletes of one item: exactly one may win
@@ -300,10 +337,16 @@ func (g *concGen) concCmd(m *Model, task, i int) *Cmd {
 
 // ConcPlanFor generates the world, set-up and task lists of one concurrent run.
 func ConcPlanFor(seed uint64) (*Plan, string) {
-	prof := &Profile{Prop: "C11", MinClients: 1, MaxClients: 1, MaxTables: 2, MinIdx: 0, MaxIdx: 2, RangeProb: 0.4, KeyStyle: "plain", MinSteps: 1, MaxSteps: 1, Weights: map[string]float64{"put": 1, "get": 1}}
+	prof := &Profile{Prop: "C11", MinClients: 1, MaxClients: 1, MaxTables: 2, MinIdx: 0, MaxIdx: 2, RangeProb: 0.6, KeyStyle: "plain", MinSteps: 1, MaxSteps: 1, Weights: map[string]float64{"put": 1, "get": 1}}
 	g := &concGen{Gen: NewGen(seed, prof)}
 	r := g.R
 	g.scenario = pick(r, concScenarios)
+	// a quarter of the runs: two independent clients used concurrently (they
+	// may share nothing: package-level state of the library is the only link)
+	twoClients := r.Chance(0.25)
+	if twoClients {
+		g.W.SDKs = append(g.W.SDKs, pick(r, []string{"v1", "v2"}))
+	}
 	// small key universe so that tasks collide
 	for i := range g.W.Tables {
 		u := &g.W.Tables[i]
@@ -314,7 +357,7 @@ func ConcPlanFor(seed uint64) (*Plan, string) {
 			u.RangeVals = u.RangeVals[:2]
 		}
 	}
-	if g.scenario == "create-race" && len(g.W.Tables) < 2 {
+	if (g.scenario == "create-race" || g.scenario == "create-native") && len(g.W.Tables) < 2 {
 		g.scenario = "mix"
 	}
 	t0 := g.W.Tables[0].Name
@@ -334,18 +377,27 @@ func ConcPlanFor(seed uint64) (*Plan, string) {
 	p := &Plan{Property: "C11", Seed: seed, World: g.W, MapOrder: g.Cfg.MapOrder, MapSeed: Mix(seed, 77)}
 	d0 := def0
 	p.Cmds = append(p.Cmds, &Cmd{ID: g.id(), Op: "Create", T: t0, Def: &d0, Actor: "setup"})
-	if len(g.W.Tables) > 1 && g.scenario != "create-race" && r.Chance(0.5) {
+	if len(g.W.Tables) > 1 && g.scenario != "create-race" && g.scenario != "create-native" && r.Chance(0.5) {
 		t1 := g.W.Tables[1].Name
 		d1 := g.defs[t1][0]
 		p.Cmds = append(p.Cmds, &Cmd{ID: g.id(), Op: "Create", T: t1, Def: &d1, Actor: "setup"})
 	}
+	if twoClients {
+		var twin []*Cmd
+		for _, c := range p.Cmds {
+			d := c.clone()
+			d.ID, d.C = g.id(), 1
+			twin = append(twin, d)
+		}
+		p.Cmds = append(p.Cmds, twin...)
+	}
 	// initial items
-	m := NewModel(1)
+	m := NewModel(len(g.W.SDKs))
 	for _, c := range p.Cmds {
 		m.Apply(c)
 	}
 	nInit := r.Intn(3)
-	if g.scenario == "del-race" || g.scenario == "index-read" {
+	if g.scenario == "del-race" || g.scenario == "index-read" || g.scenario == "panic" {
 		nInit = r.Range(2, 3)
 	}
 	for i, n := 0, nInit; i < n; i++ {
@@ -366,13 +418,22 @@ func ConcPlanFor(seed uint64) (*Plan, string) {
 		c := &Cmd{ID: g.id(), Op: "Put", T: t0, Item: it, Actor: "setup"}
 		m.Apply(c)
 		p.Cmds = append(p.Cmds, c)
+		if twoClients {
+			d := c.clone()
+			d.ID, d.C = g.id(), 1
+			m.Apply(d)
+			p.Cmds = append(p.Cmds, d)
+		}
 	}
-	nT := r.Range(2, 4)
+	nT, maxOps, maxPer := r.Range(2, 4), 12, 4
+	if Tier == "thorough" {
+		nT, maxOps, maxPer = r.Range(2, 5), 16, 5
+	}
 	total := 0
 	for t := 0; t < nT; t++ {
-		n := r.Range(1, 4)
-		if total+n > 12 {
-			n = 12 - total
+		n := r.Range(1, maxPer)
+		if total+n > maxOps {
+			n = maxOps - total
 		}
 		if n <= 0 {
 			break
@@ -382,6 +443,9 @@ func ConcPlanFor(seed uint64) (*Plan, string) {
 			c := g.concCmd(m, t, i)
 			c.ID = g.id()
 			c.Actor = fmt.Sprintf("task%d", t)
+			if twoClients {
+				c.C = t % 2
+			}
 			list = append(list, c)
 		}
 		total += n
@@ -434,7 +498,6 @@ func ExecConc(p *Plan) *ConcResult {
 		}
 	}
 	init := e.M.Clone()
-	drv := e.Drv[0]
 	var evt int64
 	hist := make([][]HistOp, len(p.Tasks))
 	var fns []func()
@@ -443,10 +506,9 @@ func ExecConc(p *Plan) *ConcResult {
 		fns = append(fns, func() {
 			for _, c := range p.Tasks[t] {
 				op := HistOp{Task: t, Cmd: c.clone()}
-				op.Cmd.C = 0
 				evt++
 				op.Call = evt
-				op.Out = drv.Exec(op.Cmd)
+				op.Out = e.Drv[op.Cmd.C].Exec(op.Cmd)
 				evt++
 				op.Ret = evt
 				hist[t] = append(hist[t], op)
@@ -489,56 +551,65 @@ func ExecConc(p *Plan) *ConcResult {
 	// ---- the observer reads the final state; its reads are part of the history
 	if len(fails) == 0 {
 		nid := 1 << 20
-		for i := range p.World.Tables {
-			u := &p.World.Tables[i]
-			nid++
-			dc := &Cmd{ID: nid, Op: "Describe", T: u.Name, Actor: "observer"}
-			evt++
-			op := HistOp{Task: len(p.Tasks), Cmd: dc, Call: evt}
-			op.Out = drv.Exec(dc)
-			evt++
-			op.Ret = evt
-			res.History = append(res.History, op)
-			if !op.Out.OK() || op.Out.Desc == nil {
-				continue
-			}
-			hashOnly := !strings.Contains(op.Out.Desc.Keys, "RANGE")
-			for _, def := range tableDefsOf(p, u.Name) {
-				if (def.Range == nil) != hashOnly {
+		for ci := range p.World.SDKs {
+			drv := e.Drv[ci]
+			for i := range p.World.Tables {
+				u := &p.World.Tables[i]
+				nid++
+				dc := &Cmd{ID: nid, C: ci, Op: "Describe", T: u.Name, Actor: "observer"}
+				evt++
+				op := HistOp{Task: len(p.Tasks), Cmd: dc, Call: evt}
+				op.Out = drv.Exec(dc)
+				evt++
+				op.Ret = evt
+				res.History = append(res.History, op)
+				if !op.Out.OK() || op.Out.Desc == nil {
 					continue
 				}
-				for _, k := range u.KeysOf(def) {
+				hashOnly := !strings.Contains(op.Out.Desc.Keys, "RANGE")
+				for _, def := range tableDefsOf(p, u.Name) {
+					if (def.Range == nil) != hashOnly {
+						continue
+					}
+					for _, k := range u.KeysOf(def) {
+						nid++
+						g := &Cmd{ID: nid, C: ci, Op: "Get", T: u.Name, Key: k, Actor: "observer"}
+						evt++
+						o := HistOp{Task: len(p.Tasks), Cmd: g, Call: evt}
+						o.Out = drv.Exec(g)
+						evt++
+						o.Ret = evt
+						res.History = append(res.History, o)
+					}
+					break
+				}
+				scans := []string{""}
+				for name := range op.Out.Desc.Indexes {
+					scans = append(scans, name)
+				}
+				sort.Strings(scans)
+				for _, ix := range scans {
 					nid++
-					g := &Cmd{ID: nid, Op: "Get", T: u.Name, Key: k, Actor: "observer"}
+					s := &Cmd{ID: nid, C: ci, Op: "Scan", T: u.Name, Index: ix, Actor: "observer"}
 					evt++
-					o := HistOp{Task: len(p.Tasks), Cmd: g, Call: evt}
-					o.Out = drv.Exec(g)
+					o := HistOp{Task: len(p.Tasks), Cmd: s, Call: evt}
+					o.Out = drv.Exec(s)
 					evt++
 					o.Ret = evt
 					res.History = append(res.History, o)
 				}
-				break
-			}
-			scans := []string{""}
-			for name := range op.Out.Desc.Indexes {
-				scans = append(scans, name)
-			}
-			sort.Strings(scans)
-			for _, ix := range scans {
-				nid++
-				s := &Cmd{ID: nid, Op: "Scan", T: u.Name, Index: ix, Actor: "observer"}
-				evt++
-				o := HistOp{Task: len(p.Tasks), Cmd: s, Call: evt}
-				o.Out = drv.Exec(s)
-				evt++
-				o.Ret = evt
-				res.History = append(res.History, o)
 			}
 		}
 		// ---- linearizability
 		var ops []porcupine.Operation
 		attributable := true
 		for _, h := range res.History {
+			if h.Cmd.Op == "BatchWrite" && h.Out.Class == "internal-server" {
+				// C15's clause, under concurrency: under the emulated internal-server
+				// failure every request is applied or handed back as unprocessed; an
+				// error answer drops requests, whatever the interleaving with the toggle
+				add("C11.lin", "BatchWriteItem racing with EmulateFailure returned the emulated error itself (requests neither applied nor reported unprocessed): %s", h.Cmd.String())
+			}
 			parts, ok := splitBatch(h)
 			if !ok {
 				attributable = false
@@ -551,7 +622,11 @@ func ExecConc(p *Plan) *ConcResult {
 		if !attributable {
 			res.Quiet = "a batch failed after a partial application: not attributable to per-request operations"
 		} else {
-			switch porcupine.CheckOperationsTimeout(porcupineModel(init), ops, 30*time.Second) {
+			limit := 5 * time.Second
+			if Tier == "thorough" {
+				limit = 30 * time.Second
+			}
+			switch porcupine.CheckOperationsTimeout(porcupineModel(init), ops, limit) {
 			case porcupine.Ok:
 				res.Porcupine = "ok"
 			case porcupine.Illegal:
